@@ -58,7 +58,9 @@ static std::string g_tagname;
 static bool g_sock = false;            // deliver through the real receive path (UdpSocket::onSocketEvent, recvfrom() of common.h)
 
 static void emit(const char *line) { size_t n = strlen(line); ssize_t r = write(1, line, n); (void)r; }
-static void violation(std::string sig, const std::string &label, const Bytes &dg, const std::string &detail) {
+static const Bytes *g_full = nullptr;   // set while a datagram longer than the receive buffer is judged as its stored prefix: the replay line shows all of it
+static void violation(std::string sig, const std::string &label, const Bytes &dg_judged, const std::string &detail) {
+  const Bytes &dg = g_full ? *g_full : dg_judged;
   shm->viols++; if (sig.size() > 170) sig.resize(170);
   for (auto &e : shm->sigs) {
     if (e.sig[0] == 0) { strncpy(e.sig, sig.c_str(), sizeof(e.sig) - 1); }
@@ -323,7 +325,7 @@ static void *worker_thread(void *arg) {
     // which keeps the 16.8 M-datagram sweep affordable (same defects, 160 times fewer garbage iterations).
     unsigned char p2 = (g_tail && pd->size() >= 4) ? 0x01 : 0xA5;
     shm->phase = 2; Obs o1 = run_once(*pd, p2, rx, err);
-    Bytes stored; if (g_sock && rx == RX_DATAGRAM && g_rx_last_len && pd->size() > g_rx_last_len) { stored.assign(pd->begin(), pd->begin() + g_rx_last_len); jd = &stored; }   // longer than the buffer offered: judged as the stored prefix
+    Bytes stored; if (g_sock && rx == RX_DATAGRAM && g_rx_last_len && pd->size() > g_rx_last_len) { stored.assign(pd->begin(), pd->begin() + g_rx_last_len); jd = &stored; g_full = pd; } else g_full = nullptr;   // longer than the buffer offered: judged as the stored prefix
     unsigned vg1 = VALGRIND_COUNT_ERRORS;
     shm->phase = 3;
     if (vg1 != vg0) { Strict sx = ref_strict(jd->data(), jd->size()); violation("dns-" + (sx.shape == "well-formed" ? std::string("well-formed-reply") : sx.shape) + "-valgrind-reports-invalid-or-uninitialised-value-use", *pl, *jd, std::to_string(vg1 - vg0) + " memcheck errors during the two deliveries"); outcome(pl->substr(0, pl->find(' ')) + " -> memcheck-error"); }
@@ -411,7 +413,8 @@ int main(int argc, char **argv) {
     else effect = "crash-exit" + std::to_string(WEXITSTATUS(st));
     if (detail.empty()) { size_t f = err.find("    #"); for (int k = 0; k < 6 && f != std::string::npos; k++) { size_t e = err.find('\n', f); std::string ln = err.substr(f, e - f); if (ln.find("dns_request.cpp") != std::string::npos || ln.find("serializer.cpp") != std::string::npos) { detail = ln.substr(ln.find("#")); break; } f = err.find("    #", e); } }
     if (!g_tail && g_cases[at].rx != RX_DATAGRAM) { dg.clear(); sx = ref_strict(dg.data(), 0); shape = sx.shape; }
-    if (g_sock && dg.size() > kRecvBuf) { dg.resize(kRecvBuf); sx = ref_strict(dg.data(), dg.size()); shape = sx.shape == "well-formed" ? "well-formed-reply" : sx.shape; }
+    Bytes whole = dg; g_full = nullptr;
+    if (g_sock && dg.size() > kRecvBuf) { g_full = &whole; dg.resize(kRecvBuf); sx = ref_strict(dg.data(), dg.size()); shape = sx.shape == "well-formed" ? "well-formed-reply" : sx.shape; }
     char ph[80]; snprintf(ph, sizeof ph, "died in phase %d (1=paint00 2=second paint 3=oracle 4=follow-up reply)", shm->phase);
     violation("dns-" + shape + "-" + effect, label, dg, std::string(ph) + (detail.empty() ? "" : "; " + detail));
     outcome(label.substr(0, label.find(' ')) + " -> " + effect);
